@@ -62,6 +62,10 @@ type ctx struct {
 	// objects hoisted into the scope being generated
 	hoisted []*spec.Spec
 	inScope bool
+	// struct-mapped objects being generated on the current path inside the current scope (for back references)
+	path []*spec.Spec
+	// objects of the current scope that a back reference points at: they must be in the scope's table
+	refTargets map[string]bool
 }
 
 var patterns = []string{`^[a-z]+$`, `^[0-9]{2,4}$`, `abc`, `^(foo|bar|baz)$`, `^[A-Za-z0-9_-]*$`, `^\p{L}+$`, `^.{0,5}$`, `[xyz]`, `^a.c$`}
@@ -392,8 +396,10 @@ func (c *ctx) nodeFor(depth int, gt reflect.Type) *spec.Spec {
 	case gt.Kind() == reflect.Struct:
 		// pointer fields pair with the pointer form of the struct-mapped schema, value fields with the value form
 		// (the pairing used throughout the SDK's own tests)
+		// (the pairing used throughout the SDK's own tests); a pointer field also takes the value form, which the
+		// SDK stores through a fresh pointer
 		name := spec.CatalogueNameOf(gt)
-		if isPtr {
+		if isPtr && rapid.IntRange(0, 3).Draw(c.t, "ptrFieldValueForm") != 0 {
 			name = "*" + name
 		}
 		return c.object(depth, name)
@@ -401,11 +407,28 @@ func (c *ctx) nodeFor(depth int, gt reflect.Type) *spec.Spec {
 	panic(fmt.Sprintf("gen: no schema for Go type %s", gt))
 }
 
+// ancestor finds the struct-mapped object of the given catalogue struct on the current generation path (o itself
+// included), or nil.
+func (c *ctx) ancestor(name string, o *spec.Spec) *spec.Spec {
+	if name == "" {
+		return nil
+	}
+	if strings.TrimPrefix(o.Struct, "*") == name {
+		return o
+	}
+	for i := len(c.path) - 1; i >= 0; i-- {
+		if strings.TrimPrefix(c.path[i].Struct, "*") == name {
+			return c.path[i]
+		}
+	}
+	return nil
+}
+
 func (c *ctx) object(depth int, structName string) *spec.Spec {
 	if structName == "-" {
 		structName = ""
 	} else if structName == "" && c.o.Structs && (!c.o.Objects || rapid.IntRange(0, 2).Draw(c.t, "useStruct") == 0) {
-		structName = rapid.SampledFrom([]string{"Leaf", "Leaf", "Mid", "Top", "Node", "AltA", "AltB"}).Draw(c.t, "structName")
+		structName = rapid.SampledFrom([]string{"Leaf", "Leaf", "Mid", "Top", "Node", "AltA", "AltB", "PairA", "PairB"}).Draw(c.t, "structName")
 		if rapid.IntRange(0, 3).Draw(c.t, "ptrStruct") == 0 {
 			structName = "*" + structName
 		}
@@ -446,19 +469,34 @@ func (c *ctx) object(depth int, structName string) *spec.Spec {
 			if et.Kind() == reflect.Struct && et != typeRegexp.Elem() {
 				isStruct = true
 			}
-			if isStruct && depth+1 > c.o.MaxDepth {
+			var back *spec.Spec
+			if isStruct {
+				back = c.ancestor(spec.CatalogueNameOf(et), o)
+			}
+			if isStruct && back == nil && depth+1 > c.o.MaxDepth {
 				continue
 			}
 			var pt *spec.Spec
-			if spec.CatalogueNameOf(ft) == "Node" && strings.TrimPrefix(structName, "*") == "Node" && c.inScope && c.o.Refs {
-				// self reference through the scope
-				pt = &spec.Spec{Kind: spec.KRef, RefID: o.ID}
+			if back != nil {
+				// the field's struct type is being generated further up: a cycle of the object graph
+				if ft.Kind() != reflect.Pointer || !c.inScope || !c.o.Refs {
+					continue
+				}
+				pt = &spec.Spec{Kind: spec.KRef, RefID: back.ID}
 				selfRefs = append(selfRefs, f.Prop)
-				o.Struct = "*Node" // the member is a *Node field: pointer form
-			} else if spec.CatalogueNameOf(et) == "Node" && strings.TrimPrefix(structName, "*") == "Node" {
-				continue
+				if back == o {
+					ev.Class("object_cycle:length_1", 1)
+				} else {
+					ev.Class("object_cycle:longer", 1)
+					c.refTargets[back.ID] = true
+				}
+				if !strings.HasPrefix(back.Struct, "*") {
+					ev.Class("object_cycle:value_form_target", 1)
+				}
 			} else {
+				c.path = append(c.path, o)
 				pt = c.nodeFor(depth+1, ft)
+				c.path = c.path[:len(c.path)-1]
 			}
 			o.Props = append(o.Props, spec.Prop{Name: f.Prop, Type: pt})
 		}
@@ -471,7 +509,12 @@ func (c *ctx) object(depth int, structName string) *spec.Spec {
 	// the single-property shorthand recurse forever on any non-map input. Such objects are excluded here by
 	// construction (counted) and exercised by C04's dedicated case.
 	if len(selfRefs) > 0 && len(o.Props) == 1 {
-		o.Props = append(o.Props, spec.Prop{Name: "v", Type: &spec.Spec{Kind: spec.KInt}})
+		if strings.TrimPrefix(structName, "*") == "PairB" {
+			o.Props = append(o.Props, spec.Prop{Name: "s", Type: &spec.Spec{Kind: spec.KString}})
+		} else {
+			o.Props = append(o.Props, spec.Prop{Name: "v", Type: &spec.Spec{Kind: spec.KInt}})
+		}
+		c.fixStruct(o)
 		ev.Class("excluded_known:shorthand-selfref", 1)
 	}
 	// a self-referential member must be optional, otherwise the object has no finite value
@@ -680,8 +723,28 @@ func AddDefaults(t *rapid.T, root *spec.Spec, o Opts) {
 				if !o.Defaults || p.Disabled || rapid.IntRange(0, 3).Draw(t, "hasDefault") != 0 {
 					continue
 				}
-				if p.Type.Kind == spec.KRef && p.Type.RefID == s.ID {
-					// a default on a self-referential member would describe an infinite value
+				if reachesObject(p.Type, env, s, map[*spec.Spec]bool{}) {
+					// a default on a member that closes a cycle of the object graph describes an infinite value as soon
+					// as it contains an instance of the owner (every such instance takes the default again): only an
+					// empty container / an empty inline object can be a default here
+					var empty any
+					switch p.Type.Kind {
+					case spec.KList:
+						empty = []any{}
+					case spec.KMap, spec.KObject:
+						empty = map[string]any{}
+					}
+					if empty != nil {
+						if _, v := model.Denote(p.Type, env, empty); v == model.Accept {
+							d := "{}"
+							if p.Type.Kind == spec.KList {
+								d = "[]"
+							}
+							p.Default = &d
+							ev.Class("empty_default_on_cycle_member", 1)
+							continue
+						}
+					}
 					ev.Class("pruned_default_on_recursive_member", 1)
 					continue
 				}
@@ -711,6 +774,97 @@ func AddDefaults(t *rapid.T, root *spec.Spec, o Opts) {
 		}
 	}
 	walk(root, nil, false)
+}
+
+// reachesObject tells if the target object occurs anywhere below the node (through references too).
+func reachesObject(s *spec.Spec, env *model.Env, target *spec.Spec, seen map[*spec.Spec]bool) bool {
+	if s == nil {
+		return false
+	}
+	switch s.Kind {
+	case spec.KRef, spec.KScope:
+		o, oenv := model.Resolve(s, env)
+		if o == nil {
+			return false
+		}
+		return reachesObject(o, oenv, target, seen)
+	case spec.KObject:
+		if s == target {
+			return true
+		}
+		if seen[s] {
+			return false
+		}
+		seen[s] = true
+		for i := range s.Props {
+			if reachesObject(s.Props[i].Type, env, target, seen) {
+				return true
+			}
+		}
+		return false
+	}
+	if reachesObject(s.Items, env, target, seen) || reachesObject(s.Values, env, target, seen) {
+		return true
+	}
+	for i := range s.Members {
+		if reachesObject(s.Members[i].Type, env, target, seen) {
+			return true
+		}
+	}
+	return false
+}
+
+// IsRecursive tells if some scope in the spec has an object that refers back to itself, directly or through other
+// objects of the scope.
+func IsRecursive(s *spec.Spec) bool {
+	rec := false
+	spec.Walk(s, func(sc *spec.Spec) {
+		if sc.Kind != spec.KScope {
+			return
+		}
+		// reference graph between the objects of this scope
+		edges := map[string][]string{}
+		for _, o := range sc.Objects {
+			var collect func(n *spec.Spec)
+			collect = func(n *spec.Spec) {
+				if n == nil || n.Kind == spec.KScope {
+					return
+				}
+				if n.Kind == spec.KRef && n.Namespace == "" {
+					edges[o.ID] = append(edges[o.ID], n.RefID)
+				}
+				collect(n.Items)
+				collect(n.Keys)
+				collect(n.Values)
+				for i := range n.Props {
+					collect(n.Props[i].Type)
+				}
+				for i := range n.Members {
+					collect(n.Members[i].Type)
+				}
+			}
+			for i := range o.Props {
+				collect(o.Props[i].Type)
+			}
+		}
+		for _, o := range sc.Objects {
+			seen := map[string]bool{}
+			stack := append([]string(nil), edges[o.ID]...)
+			for len(stack) > 0 {
+				x := stack[len(stack)-1]
+				stack = stack[:len(stack)-1]
+				if x == o.ID {
+					rec = true
+				}
+				if seen[x] {
+					continue
+				}
+				seen[x] = true
+				stack = append(stack, edges[x]...)
+			}
+		}
+	})
+	return rec
 }
 
 func valueObjectMember(p *spec.Prop, env *model.Env) (*spec.Spec, *model.Env, bool) {
@@ -944,14 +1098,14 @@ func dropName(l []string, n string) []string {
 
 // scope generates a scope: a root object plus hoisted objects referenced from inside.
 func (c *ctx) scope(depth int) *spec.Spec {
-	savedHoisted, savedIn := c.hoisted, c.inScope
-	c.hoisted, c.inScope = nil, true
+	savedHoisted, savedIn, savedPath, savedTargets := c.hoisted, c.inScope, c.path, c.refTargets
+	c.hoisted, c.inScope, c.path, c.refTargets = nil, true, nil, map[string]bool{}
 	root := c.object(depth, "")
 	sc := &spec.Spec{Kind: spec.KScope, Root: root.ID, Objects: []*spec.Spec{root}}
 	if c.o.Refs {
 		c.hoist(root, sc, true)
 	}
-	c.hoisted, c.inScope = savedHoisted, savedIn
+	c.hoisted, c.inScope, c.path, c.refTargets = savedHoisted, savedIn, savedPath, savedTargets
 	return sc
 }
 
@@ -973,7 +1127,7 @@ func (c *ctx) hoist(s *spec.Spec, sc *spec.Spec, isRoot bool) {
 					selfRef = true // a self-referential object must be in the scope's table
 				}
 			}
-			if selfRef || rapid.IntRange(0, 2).Draw(c.t, "hoist") == 0 {
+			if selfRef || c.refTargets[s.ID] || rapid.IntRange(0, 2).Draw(c.t, "hoist") == 0 {
 				sc.Objects = append(sc.Objects, s)
 				*ps = &spec.Spec{Kind: spec.KRef, RefID: s.ID, Display: c.display("ref")}
 			}
